@@ -5,10 +5,10 @@ package main
 // C27 — internal cluster codecs round-trip and reject garbage.
 //
 // Generic ops (every codec of the table, D only; the Lean driver judges the flags):
-//   rt <codec> <selfdelim:0|1> <seed>   random valid value v (built from the Go types from <seed>):
+//   rt <codec> <flags> <seed>   flags = <selfdelim:0|1><canonical:0|1>; random valid value v (built from the Go types from <seed>):
 //        enc=err                                   the encoder refused the value (counted, not judged)
 //        len=<n> rt=<eq|neq|err> trunc=<n>:<accepted>:<noncanonical> flip=<n>:<accepted>:<unstable> alloc=<ok|big:<bytes>:<what>>
-//   gb <codec> <hex>                    arbitrary bytes: dec=<err|ok> stable=<1|0|-> alloc=<ok|big:..>
+//   gb <codec> <flags> <hex>    arbitrary bytes: dec=<err|ok> stable=<1|0|-> alloc=<ok|big:..>
 // Modelled ops (propose / clusternet / shared primitives) are in c27_small.go.
 
 import (
@@ -25,6 +25,7 @@ import (
 type c27Codec struct {
 	name      string
 	selfDelim bool // every strict prefix of an encoding must be rejected
+	canon     bool // whatever the decoder accepts is the canonical encoding of a value that survives encode→decode
 	gen       func(f *c27Filler) any
 	enc       func(v any) ([]byte, error)
 	dec       func(b []byte) (any, error)
@@ -98,6 +99,16 @@ func (f *c27Filler) StrN(n int) string {
 		} else {
 			b[i] = byte(f.R.U64())
 		}
+	}
+	return string(b)
+}
+
+// ID returns a short non-empty printable identifier (uid / channel id).
+func (f *c27Filler) ID() string {
+	n := f.R.Range(1, 12)
+	b := make([]byte, n)
+	for i := range b {
+		b[i] = "abcdefghijklmnopqrstuvwxyz0123456789_@-"[f.R.Intn(39)]
 	}
 	return string(b)
 }
@@ -224,6 +235,53 @@ func c27New[T any](f *c27Filler) T {
 // c27Equal is reflect.DeepEqual except that time.Time values are compared as
 // instants and errors by message; nil and empty slices stay different.
 func c27Equal(a, b any) bool { return c27EqV(reflect.ValueOf(a), reflect.ValueOf(b), 0) }
+
+// c27Diff describes the first difference (debugging aid: C27_DEBUG=1).
+func c27Diff(a, b reflect.Value, path string) string {
+	if !a.IsValid() || !b.IsValid() || a.Type() != b.Type() {
+		return path + ": type/validity"
+	}
+	switch a.Kind() {
+	case reflect.Struct:
+		if a.Type() == c27TimeType {
+			if !c27EqV(a, b, 0) {
+				return fmt.Sprintf("%s: time %v vs %v", path, a, b)
+			}
+			return ""
+		}
+		for i := 0; i < a.NumField(); i++ {
+			if d := c27Diff(a.Field(i), b.Field(i), path+"."+a.Type().Field(i).Name); d != "" {
+				return d
+			}
+		}
+		return ""
+	case reflect.Slice, reflect.Array:
+		if a.Kind() == reflect.Slice && (a.IsNil() != b.IsNil() || a.Len() != b.Len()) {
+			return fmt.Sprintf("%s: slice nil=%v/%v len=%d/%d", path, a.IsNil(), b.IsNil(), a.Len(), b.Len())
+		}
+		for i := 0; i < a.Len(); i++ {
+			if d := c27Diff(a.Index(i), b.Index(i), fmt.Sprintf("%s[%d]", path, i)); d != "" {
+				return d
+			}
+		}
+		return ""
+	case reflect.Ptr, reflect.Interface:
+		if a.IsNil() || b.IsNil() {
+			if a.IsNil() != b.IsNil() {
+				return fmt.Sprintf("%s: nil=%v/%v", path, a.IsNil(), b.IsNil())
+			}
+			return ""
+		}
+		if a.Kind() == reflect.Interface && !c27EqV(a, b, 0) {
+			return fmt.Sprintf("%s: iface %v vs %v", path, a, b)
+		}
+		return c27Diff(a.Elem(), b.Elem(), path+"*")
+	}
+	if !c27EqV(a, b, 0) {
+		return fmt.Sprintf("%s: %v vs %v", path, a, b)
+	}
+	return ""
+}
 
 func c27EqV(a, b reflect.Value, d int) bool {
 	if !a.IsValid() || !b.IsValid() {
@@ -394,6 +452,8 @@ func c27Stable(c *c27Codec, v any) (stable bool, reenc []byte, encErr bool) {
 	return c.equal(v, v2), b, false
 }
 
+func (c *c27Codec) flags() string { return fmt.Sprintf("%d%d", c27B(c.selfDelim), c27B(c.canon)) }
+
 func (c *c27Codec) equal(a, b any) bool {
 	if c.eq != nil {
 		return c.eq(a, b)
@@ -418,14 +478,14 @@ func (r *c27Runner) Step(op string) string {
 		}
 		return c27RoundTrip(c, seed)
 	case "gb":
-		if len(f) != 3 {
+		if len(f) != 4 {
 			return "bad-op"
 		}
 		c, ok := c27Codecs[f[1]]
 		if !ok {
 			return "bad-op"
 		}
-		data := UnHex(f[2])
+		data := UnHex(f[3])
 		var al c27Alloc
 		var v any
 		var err error
@@ -517,11 +577,11 @@ func genC27(g *Gen) {
 		c := c27Codecs[n]
 		if c.seeds != nil {
 			for _, s := range c.seeds() {
-				g.Op("gb", "%s %s", n, Hex(s))
+				g.Op("gb", "%s %s %s", n, c.flags(), Hex(s))
 			}
 		}
 		for _, s := range [][]byte{nil, {0}, {1}, {0xff}, {1, 0}, {0xff, 0xff, 0xff, 0xff, 0xff, 0xff, 0xff, 0xff, 0xff, 0xff, 0xff}} {
-			g.Op("gb", "%s %s", n, Hex(s))
+			g.Op("gb", "%s %s %s", n, c.flags(), Hex(s))
 		}
 	}
 	for i := 0; i < g.N; i++ {
@@ -529,7 +589,7 @@ func genC27(g *Gen) {
 		c := c27Codecs[n]
 		if g.R.Chance(80) {
 			g.Count("rt:" + n)
-			g.Op("rt", "%s %d %d", n, c27B(c.selfDelim), g.R.U64()>>1)
+			g.Op("rt", "%s %s %d", n, c.flags(), g.R.U64()>>1)
 		} else {
 			g.Count("gb:" + n)
 			var b []byte
@@ -541,7 +601,7 @@ func genC27(g *Gen) {
 			default: // plausible start, random tail
 				b = append([]byte{byte(g.R.Intn(4)), byte(g.R.Intn(70))}, g.R.Bytes(g.R.Range(0, 60))...)
 			}
-			g.Op("gb", "%s %s", n, Hex(b))
+			g.Op("gb", "%s %s %s", n, c.flags(), Hex(b))
 		}
 	}
 }
